@@ -29,7 +29,7 @@ import (
 
 // ---------- cases ----------
 type Op struct {
-	K     string `json:"k"` // ev plain adv flushall close | setexp (Filter.Expiration = D, between calls) | reopen type now (the other exported methods)
+	K     string `json:"k"` // ev plain adv flushall close | setbroker (Filter.Broker = nil / Sender 1 / Sender 2, D = 0 1 2) | setnow (a new NowFunc, D ns ahead of the harness clock) | setexp (Filter.Expiration = D, between calls) | reopen type now (the other exported methods)
 	ID    int    `json:"id,omitempty"`
 	Flush bool   `json:"flush,omitempty"`
 	Done  bool   `json:"ctx_done,omitempty"` // the call is made with an already cancelled context (the model ignores the context)
@@ -71,6 +71,8 @@ type Case struct {
 	Ticker  int64  `json:"ticker,omitempty"` // a goroutine advances the clock by this much between yields
 	// a second call arrives while the first call's Send through the Broker is parked
 	Blocked *Blocked `json:"blocked,omitempty"`
+	// several calls enter together while groups are already expired; the filter's own clock reads are the rendezvous point
+	Rendez *Rendez `json:"rendezvous,omitempty"`
 }
 
 const defaultExp = int64(10 * time.Second)
@@ -92,6 +94,9 @@ type world struct {
 	sent         [][]pair
 	sends        int
 	sentGateable bool
+	sentStale    bool
+	curSender    int         // tag of the Sender currently assigned to Filter.Broker (0 = none)
+	nowOffset    int64       // the NowFunc currently assigned returns now + nowOffset
 	now          int64       // atomic
 	inputs       []inputEv   // every event handed to Process, with what it looked like then
 	kept         []keptSlice // every slice handed to ComposeFrom: the very slice (no copy) and what it held at that moment
@@ -265,12 +270,18 @@ func (g *gp) ComposeFrom(evs []*el.Event) (el.EventType, interface{}, error) { r
 
 type plain struct{ n int }
 
-type sender struct{ w *world }
+type sender struct {
+	w   *world
+	tag int // which of the harness' Senders this is (the Broker field of the Filter may be re-assigned between calls)
+}
 
 func (s *sender) Send(ctx context.Context, t el.EventType, p interface{}) (el.Status, error) {
 	w := s.w
 	w.mu.Lock()
 	defer w.mu.Unlock()
+	if s.tag != w.curSender {
+		w.sentStale = true // a payload for a Broker the Filter does not have at the time of this call
+	}
 	w.sends++
 	var evs []pair
 	switch c := p.(type) {
@@ -299,7 +310,9 @@ type Grp struct {
 }
 type Obs struct {
 	Now          int64    `json:"now"`
-	Exp          int64    `json:"exp"` // Filter.Expiration as last set by the harness
+	Exp          int64    `json:"exp"`    // Filter.Expiration as last set by the harness
+	Broker       bool     `json:"broker"` // Filter.Broker set at the time of the call
+	SentStale    bool     `json:"sent_stale,omitempty"`
 	Res          int      `json:"res"`
 	Comp         []pair   `json:"comp,omitempty"`
 	Compose      [][]pair `json:"compose,omitempty"`
@@ -316,7 +329,8 @@ func newFilter(w *world) *gated.Filter {
 		f.NowFunc = nil
 	}
 	if w.cfg.Broker {
-		f.Broker = &sender{w}
+		f.Broker = &sender{w, 1}
+		w.curSender = 1
 	}
 	return f
 }
@@ -476,6 +490,25 @@ func execCaseInner(c Case, at *int32) (calls []Op, nums []int, obs []Obs, panick
 			atomic.AddInt64(&w.now, op.D)
 			continue
 		}
+		if op.K == "setbroker" {
+			// Broker is an exported field: nil -> set, set -> another Sender, set -> nil between calls
+			w.mu.Lock()
+			w.curSender = int(op.D)
+			w.mu.Unlock()
+			if op.D == 0 {
+				f.Broker = nil
+			} else {
+				f.Broker = &sender{w, int(op.D)}
+			}
+			continue
+		}
+		if op.K == "setnow" {
+			// NowFunc is an exported field: a new function, op.D ns ahead of the harness clock
+			off := op.D
+			w.nowOffset = off
+			f.NowFunc = func() time.Time { return time.Unix(0, atomic.LoadInt64(&w.now)+off) }
+			continue
+		}
 		if op.K == "setexp" {
 			// Expiration is an exported field: a caller may change it between calls; groups keep the expiry fixed when they were opened
 			f.Expiration = time.Duration(op.D)
@@ -491,7 +524,11 @@ func execCaseInner(c Case, at *int32) (calls []Op, nums []int, obs []Obs, panick
 		c0, s0 := len(w.composeArgs), len(w.sent)
 		w.sentGateable = false
 		w.mu.Unlock()
-		o := Obs{Now: atomic.LoadInt64(&w.now), Exp: curExp}
+		w.mu.Lock()
+		w.sentStale = false
+		brokerSet := w.curSender != 0
+		w.mu.Unlock()
+		o := Obs{Now: atomic.LoadInt64(&w.now) + w.nowOffset, Exp: curExp, Broker: brokerSet}
 		if op.K == "ev" && c.IDMap != nil && op.ID < len(c.IDMap) {
 			op.ID = c.IDMap[op.ID]
 		}
@@ -553,7 +590,7 @@ func execCaseInner(c Case, at *int32) (calls []Op, nums []int, obs []Obs, panick
 					o.Res = 3
 				}
 			default:
-				if got := f.Now(); got.UnixNano() != atomic.LoadInt64(&w.now) {
+				if got := f.Now(); got.UnixNano() != atomic.LoadInt64(&w.now)+w.nowOffset {
 					o.Res = 3
 				}
 			}
@@ -564,6 +601,7 @@ func execCaseInner(c Case, at *int32) (calls []Op, nums []int, obs []Obs, panick
 		o.Compose = append([][]pair(nil), w.composeArgs[c0:]...)
 		o.Sent = append([][]pair(nil), w.sent[s0:]...)
 		o.SentGateable = w.sentGateable
+		o.SentStale = w.sentStale
 		w.mu.Unlock()
 		cancel()
 		o.Gated, o.IndexOK = snapshot(f)
@@ -696,7 +734,7 @@ func execBlocked(c Case) (o CObs, panicked interface{}) {
 	sp := c.Blocked
 	w := &world{cfg: c.Cfg, now: 1000}
 	cur = w
-	bs := &blockSender{inner: &sender{w}, entered: make(chan struct{}), release: make(chan struct{})}
+	bs := &blockSender{inner: &sender{w, 0}, entered: make(chan struct{}), release: make(chan struct{})}
 	f := &gated.Filter{Expiration: time.Duration(w.cfg.Exp), Broker: bs, NowFunc: func() time.Time { return time.Unix(0, atomic.LoadInt64(&w.now)) }}
 	ctx := context.Background()
 	var emu sync.Mutex
@@ -780,6 +818,108 @@ func execBlocked(c Case) (o CObs, panicked interface{}) {
 	o.CallsOK = callsOK
 	o.Mutated = w.mutated()
 	return
+}
+
+// ---------- several callers meeting an already expired group ----------
+// Groups 1..G are open and expired.  The callers (Process of a new id, a flush event for group 1, FlushAll) enter together; the filter's
+// NowFunc — called inside Process while it decides what has expired — waits (at most 10 ms per read) until every caller has entered, so
+// the callers are inside together however the scheduler behaves.  The filter's mutex serialises them: every group is composed and sent
+// exactly once, whichever caller gets to it.
+type Rendez struct {
+	Groups  int      `json:"groups"`
+	Callers []string `json:"callers"` // process process-flush flushall
+}
+
+func execRendez(c Case) (o CObs, panicked interface{}) {
+	sp := c.Rendez
+	w := &world{cfg: c.Cfg, now: 1000}
+	cur = w
+	var entered, want int32
+	f := newFilter(w)
+	f.NowFunc = func() time.Time {
+		if n := atomic.LoadInt32(&want); n > 0 {
+			deadline := time.Now().Add(10 * time.Millisecond)
+			for atomic.LoadInt32(&entered) < n && time.Now().Before(deadline) {
+				runtime.Gosched()
+			}
+		}
+		return time.Unix(0, atomic.LoadInt64(&w.now))
+	}
+	ctx := context.Background()
+	var emu sync.Mutex
+	callsOK := true
+	process := func(id int, flush bool, n int) {
+		defer func() {
+			if r := recover(); r != nil {
+				emu.Lock()
+				panicked = r
+				emu.Unlock()
+			}
+		}()
+		ev := &el.Event{Type: "t", Payload: &gp{id: idName[id], flush: flush, n: n}}
+		w.input(ev)
+		out, err := f.Process(ctx, ev)
+		res, comp := classify(ev, out, err, false, n)
+		emu.Lock()
+		o.Events = append(o.Events, CEvent{id, n, res, comp})
+		emu.Unlock()
+	}
+	for i := 1; i <= sp.Groups; i++ {
+		process(i, false, 1000+i)
+		atomic.AddInt64(&w.now, 1)
+	}
+	atomic.AddInt64(&w.now, 100) // every group has expired
+	atomic.StoreInt32(&want, int32(len(sp.Callers)))
+	var wg sync.WaitGroup
+	for k, kind := range sp.Callers {
+		wg.Add(1)
+		go func(k int, kind string) {
+			defer wg.Done()
+			atomic.AddInt32(&entered, 1)
+			switch kind {
+			case "process":
+				process(sp.Groups+1+k, false, (k+2)*1000+1) // its own new id
+			case "process-flush":
+				process(1, true, (k+2)*1000+1)
+			default:
+				if err := f.FlushAll(ctx); err != nil {
+					emu.Lock()
+					callsOK = false
+					emu.Unlock()
+				}
+			}
+		}(k, kind)
+	}
+	wg.Wait()
+	atomic.StoreInt32(&want, 0)
+	err := f.FlushAll(ctx)
+	o.FinalRes = 4
+	if err != nil {
+		o.FinalRes = 3
+	}
+	o.FinalGated, _ = snapshot(f)
+	w.mu.Lock()
+	o.Compose = w.composeArgs
+	o.Sent = w.sent
+	o.SentGateable = w.sentGateable
+	w.mu.Unlock()
+	o.CallsOK = callsOK
+	o.Mutated = w.mutated()
+	return
+}
+
+func genRendez(e *emitter, repeat int) {
+	sets := [][]string{{"process", "process"}, {"process", "process", "process"}, {"process", "process-flush"}, {"process", "flushall"}, {"process-flush", "flushall", "process"}, {"process", "process", "flushall", "process"}}
+	for rep := 0; rep < repeat; rep++ {
+		for _, groups := range []int{1, 2, 3} {
+			for _, callers := range sets {
+				if groups+len(callers) > 5 {
+					continue // ids 1..5
+				}
+				e.emitConc(Case{Gen: "rendezvous", Cfg: Cfg{Broker: true, Exp: 10}, Rendez: &Rendez{groups, callers}})
+			}
+		}
+	}
 }
 
 func genBlocked(e *emitter) {
@@ -977,8 +1117,8 @@ func hopLit(op Op, n int) string {
 	return "HClose"
 }
 func obsLit(o Obs) string {
-	return fmt.Sprintf("Build_gobs %s %s %s %s %s %s %s %s %s %s", hc.Z(o.Now), hc.Z(o.Exp), hc.N(o.Res), pairsLit(o.Comp), pairssLit(o.Compose), pairssLit(o.Sent),
-		hc.B(o.SentGateable), gatedLit(o.Gated), hc.B(o.IndexOK), hc.B(o.Mutated))
+	return fmt.Sprintf("Build_gobs %s %s %s %s %s %s %s %s %s %s %s %s", hc.Z(o.Now), hc.Z(o.Exp), hc.B(o.Broker), hc.N(o.Res), pairsLit(o.Comp), pairssLit(o.Compose), pairssLit(o.Sent),
+		hc.B(o.SentGateable), gatedLit(o.Gated), hc.B(o.IndexOK), hc.B(o.SentStale), hc.B(o.Mutated))
 }
 func cfgLit(c Cfg) string {
 	return fmt.Sprintf("(Build_gcfg %s %s %s %s %s)", hc.B(c.Broker), hc.Z(c.Exp), hc.N(c.CFailLen), hc.N(c.CGateLen), hc.N(c.SFail))
@@ -1125,7 +1265,9 @@ func (e *emitter) emitConc(c Case) {
 	done := make(chan cres, 1)
 	go func() {
 		var r cres
-		if c.Blocked != nil {
+		if c.Rendez != nil {
+			r.o, r.p = execRendez(c)
+		} else if c.Blocked != nil {
 			r.o, r.p = execBlocked(c)
 		} else {
 			r.o, r.p = execConc(c)
@@ -1376,6 +1518,36 @@ func genOrder(e *emitter) {
 	}
 }
 
+// genFields: every exported field of the Filter re-assigned between calls — Broker (nil -> set, set -> another, set -> nil), NowFunc
+// (a new function ahead of / behind the old clock), Expiration — with open groups, followed by each way a group leaves the gate; every
+// call is judged under the field values in force at that call (what was fixed when a group was opened stays fixed: only its expiry).
+func genFields(e *emitter) {
+	for _, start := range []bool{false, true} {
+		for _, b1 := range []int64{0, 1, 2} {
+			for _, b2 := range []int64{0, 1, 2} {
+				for _, trigger := range []string{"flushall", "close", "expire", "flush"} {
+					ops := []Op{{K: "ev", ID: 1}, {K: "ev", ID: 2}, {K: "setbroker", D: b1}}
+					switch trigger {
+					case "expire":
+						ops = append(ops, Op{K: "adv", D: 11}, Op{K: "ev", ID: 3})
+					case "flush":
+						ops = append(ops, Op{K: "ev", ID: 1, Flush: true}, Op{K: "adv", D: 11}, Op{K: "ev", ID: 3})
+					default:
+						ops = append(ops, Op{K: trigger})
+					}
+					ops = append(ops, Op{K: "ev", ID: 4}, Op{K: "setbroker", D: b2}, Op{K: "ev", ID: 4}, Op{K: "adv", D: 11}, Op{K: "ev", ID: 5}, Op{K: "flushall"})
+					e.emit(Case{Gen: "fields", Cfg: Cfg{Broker: start, Exp: 10}, Ops: ops})
+				}
+			}
+		}
+		for _, off := range []int64{1, 5, 11, -5} {
+			ops := []Op{{K: "ev", ID: 1}, {K: "setnow", D: off}, {K: "ev", ID: 2}, {K: "adv", D: 6}, {K: "ev", ID: 3}, {K: "setnow", D: 0}, {K: "adv", D: 5}, {K: "ev", ID: 1}, {K: "setexp", D: 3}, {K: "ev", ID: 4},
+				{K: "adv", D: 4}, {K: "ev", ID: 5}, {K: "close"}}
+			e.emit(Case{Gen: "fields", Cfg: Cfg{Broker: start, Exp: 10}, Ops: ops})
+		}
+	}
+}
+
 func maxID(h []Op) int {
 	m := 0
 	for _, o := range h {
@@ -1467,6 +1639,12 @@ func genRandom(e *emitter, r *hc.Rand, n, maxLen, ids int) {
 				if r.Chance(1, 6) {
 					ops = append(ops, Op{K: []string{"reopen", "type", "now"}[r.Intn(3)]})
 				}
+				if !twin && r.Chance(1, 8) {
+					ops = append(ops, Op{K: "setbroker", D: int64(r.Intn(3))})
+				}
+				if r.Chance(1, 12) {
+					ops = append(ops, Op{K: "setnow", D: []int64{0, 1, E / 2, -3, E + 1}[r.Intn(5)]})
+				}
 			case k < 19:
 				ops = append(ops, Op{K: "flushall", Ctx: randCtx()})
 			default:
@@ -1523,7 +1701,7 @@ func runCorpus(e *emitter, path string) {
 			continue
 		}
 		c.Gen = "corpus"
-		if len(c.Threads) > 0 || c.Blocked != nil {
+		if len(c.Threads) > 0 || c.Blocked != nil || c.Rendez != nil {
 			e.emitConc(c)
 		} else {
 			e.emit(c)
@@ -1577,12 +1755,22 @@ func main() {
 		var wrapper struct {
 			Case Case `json:"case"`
 		}
-		if err := json.Unmarshal(data, &wrapper); err != nil || (len(wrapper.Case.Ops) == 0 && len(wrapper.Case.Threads) == 0 && wrapper.Case.Blocked == nil) {
+		if err := json.Unmarshal(data, &wrapper); err != nil || (len(wrapper.Case.Ops) == 0 && len(wrapper.Case.Threads) == 0 && wrapper.Case.Blocked == nil && wrapper.Case.Rendez == nil) {
 			_ = json.Unmarshal(data, &wrapper.Case)
 		}
 		c := wrapper.Case
 		js, _ := json.Marshal(c.Cfg)
 		fmt.Printf("configuration %s\n", js)
+		if c.Rendez != nil {
+			o, p := execRendez(c)
+			bj, _ := json.Marshal(c.Rendez)
+			js, _ := json.Marshal(o)
+			fmt.Printf("callers meeting expired groups %s\n  -> %s\n", bj, js)
+			if p != nil {
+				fmt.Printf("PANIC: %v\n", p)
+			}
+			return
+		}
 		if c.Blocked != nil {
 			o, p := execBlocked(c)
 			bj, _ := json.Marshal(c.Blocked)
@@ -1677,9 +1865,11 @@ func main() {
 			genConc(e, r.Fork(), *nConc)
 		case "blocked":
 			genBlocked(e)
+			genRendez(e, 4)
 		case "faults":
 			genFaults(e)
 			genOrder(e)
+			genFields(e)
 		case "":
 		default:
 			fmt.Fprintf(os.Stderr, "unknown mode %s\n", m)
